@@ -126,7 +126,10 @@ def verdict(errs):
         return 'fd-mismatch'
     # pairs of consecutive step sizes that are both above the rounding floor
     pairs = [(e1, e2) for e1, e2 in zip(errs, errs[1:]) if e1 > 1e-5 and e2 > 1e-7 and np.isfinite(e1)]
-    if len(pairs) >= 2 and not any(e2 <= e1 / 20 for e1, e2 in pairs):
+    # a fast oscillation (sin(106 v x): steps 1e-1 and 1e-2 span several periods) reaches the asymptotic regime only one decade
+    # later - the pair just below the thresholds above still lies well over the rounding floor and shows the second-order rate
+    late = [(e1, e2) for e1, e2 in zip(errs, errs[1:]) if 1e-6 < e1 <= 1e-5 and e2 > 5e-8]
+    if len(pairs) >= 2 and not any(e2 <= e1 / 20 for e1, e2 in pairs + late):
         # never better than ~10x per decade: first-order discrepancy (e.g. derivative taken at a wrong point);
         # a pre-asymptotic plateau followed by 100x steps (oscillatory operators) is fine
         return 'fd-rate'
